@@ -84,6 +84,8 @@ class Analyzer(object):
                 return set(st[e.id])
             if e.id in self.module_globals.get(fi.module, ()) or e.id in self.all_globals:
                 return {"global:" + e.id}
+            if e.id in self.classes:
+                return {"global:" + e.id}          # a class object: storing an attribute on it is hidden state
             return {"const"}            # builtins, imported functions/classes
         if isinstance(e, ast.Attribute):
             base = self.loc(e.value, st, fi)
@@ -304,3 +306,150 @@ class Analyzer(object):
                         elif l != "self":
                             fi.writes.append((l, "call .%s() (a method that writes to its receiver)" % name, ln))
         return self
+
+
+# ---------------------------------------------------------------- per-property frame obligations
+def _simple(name):
+    return name.split(".")[-1]
+
+
+def call_graph(funcs, classes):
+    """over-approximate call graph by *simple name*: a call  f(...)  or  x.f(...)  reaches every function or method of
+    the package called f (and C(...) reaches C.__init__)"""
+    by_name = {}
+    for k, fi in funcs.items():
+        by_name.setdefault(_simple(fi.qualname), set()).add(k)
+    edges = {}
+    for k, fi in funcs.items():
+        out = set()
+        for n in ast.walk(fi.node):
+            if isinstance(n, ast.Call):
+                f = n.func
+                nm = f.id if isinstance(f, ast.Name) else (f.attr if isinstance(f, ast.Attribute) else None)
+                if nm is None:
+                    continue
+                if nm in classes:
+                    out |= {kk for kk, fj in funcs.items() if fj.cls == nm and _simple(fj.qualname) == "__init__"}
+                out |= by_name.get(nm, set())
+        edges[k] = out
+    return edges
+
+
+def resolve_roots(funcs, roots):
+    """registered names ('pymeeus.Epoch:Epoch.set', patterns with * or <Planet>) -> keys of funcs"""
+    import fnmatch
+    import re
+    out = set()
+    for r in roots:
+        r = r.split(" ")[0]
+        if r.startswith("pymeeus."):
+            r = r[len("pymeeus."):]
+        pat = re.sub(r"<[A-Za-z]+>", "*", r)
+        hit = {k for k in funcs if fnmatch.fnmatchcase(k, pat)}
+        out |= hit
+    return out
+
+
+def property_frame(roots, always=("Angle", "Epoch")):
+    """The per-call contracts of a property read module-level tables as they are in the source and take the caller's
+    argument objects as unchanged.  This discharges that assumption for the functions reachable from `roots`:
+      (a) no reachable function writes to an object handed in by its caller (other than the receiver of a documented mutator);
+      (b) no function of the whole package writes to a module-level object (or class attribute) that a reachable function reads.
+    Yields (key, ok, detail) per reachable function, then a summary."""
+    funcs, classes, g = load_package()
+    an = Analyzer(funcs, classes, g).run()
+    edges = call_graph(funcs, classes)
+    start = resolve_roots(funcs, roots)
+    # operators, float(), abs() ... on Angle and Epoch values reach their special methods
+    start |= {k for k, fi in funcs.items() if fi.cls in always and _simple(fi.qualname).startswith("__")}
+    reach, todo = set(), list(start)
+    while todo:
+        k = todo.pop()
+        if k in reach:
+            continue
+        reach.add(k)
+        todo.extend(edges.get(k, ()))
+    all_names = set()
+    for m, names in g.items():
+        all_names |= set(names)
+    all_names |= set(classes)
+    writers = {}           # global name -> [(function, what, line)]
+    for k, fi in funcs.items():
+        for (l, what, ln) in fi.writes:
+            if l.startswith("global:"):
+                writers.setdefault(l[len("global:"):], []).append((k, what, ln))
+    for k in sorted(reach):
+        fi = funcs[k]
+        bad = [(l, what, ln) for (l, what, ln) in fi.writes if l.startswith("param:")]
+        reads = {n.id for n in ast.walk(fi.node) if isinstance(n, ast.Name) and isinstance(n.ctx, ast.Load) and n.id in all_names}
+        for nm in sorted(reads):
+            for w in writers.get(nm, ()):
+                bad.append(("reads module-level %s, which %s writes (%s, line %d)" % (nm, w[0], w[1], w[2]),))
+        yield ((k, "no write to the caller's objects; reads no module-level object that some function writes"), not bad, bad[:3])
+    yield ("functions reachable from the functions under contract", len(reach) >= len(start) > 0, len(reach))
+
+
+# ---------------------------------------------------------------- representation: a mutator re-derives every field
+def _must_write(stmts, selfname):
+    """fields self.<x> assigned on every path through stmts that reaches the end (paths that raise or return early count as
+    ending: a return inside a branch stops the intersection there)"""
+    out = set()
+    for s in stmts:
+        if isinstance(s, (ast.Assign, ast.AugAssign, ast.AnnAssign)):
+            targets = s.targets if isinstance(s, ast.Assign) else [s.target]
+            todo = list(targets)
+            while todo:
+                t = todo.pop()
+                if isinstance(t, (ast.Tuple, ast.List)):
+                    todo.extend(t.elts)
+                elif isinstance(t, ast.Attribute) and isinstance(t.value, ast.Name) and t.value.id == selfname:
+                    out.add(t.attr)
+        elif isinstance(s, ast.If):
+            a, b = _must_write(s.body, selfname), _must_write(s.orelse, selfname)
+            ends_a = any(isinstance(x, ast.Raise) for x in s.body)
+            ends_b = any(isinstance(x, ast.Raise) for x in s.orelse)
+            if ends_a and not ends_b:
+                out |= b
+            elif ends_b and not ends_a:
+                out |= a
+            else:
+                out |= (a & b)
+        elif isinstance(s, ast.Return):
+            break
+    return out
+
+
+def representation_obligations(module, cls, mutator="set", constant_fields=()):
+    """every field of `cls` that a method other than the mutator (and the constructor) reads is assigned by the mutator on every
+    path: re-aiming an object with the mutator leaves nothing behind from its previous value.  Fields in `constant_fields` are
+    set once by the constructor from constants.  Yields (field, ok, detail)."""
+    from .repo import REPO
+    tree = ast.parse(open(os.path.join(REPO, "pymeeus", module + ".py"), encoding="utf-8").read())
+    cdef = [n for n in tree.body if isinstance(n, ast.ClassDef) and n.name == cls][0]
+    methods = {n.name: n for n in cdef.body if isinstance(n, ast.FunctionDef)}
+    mut = methods[mutator]
+    selfname = mut.args.args[0].arg
+    written = _must_write(mut.body, selfname)
+    # the mutator may delegate to private helpers through self.<helper>() at its top level
+    for s in mut.body:
+        if isinstance(s, ast.Expr) and isinstance(s.value, ast.Call) and isinstance(s.value.func, ast.Attribute) \
+                and isinstance(s.value.func.value, ast.Name) and s.value.func.value.id == selfname and s.value.func.attr in methods:
+            h = methods[s.value.func.attr]
+            written |= _must_write(h.body, h.args.args[0].arg)
+    reads = {}
+    for name, m in methods.items():
+        if name in (mutator, "__init__"):
+            continue
+        sn = m.args.args[0].arg if m.args.args else None
+        for n in ast.walk(m):
+            if isinstance(n, ast.Attribute) and isinstance(n.ctx, ast.Load) and isinstance(n.value, ast.Name) and n.value.id == sn \
+                    and n.attr not in methods:
+                reads.setdefault(n.attr, set()).add(name)
+    init = methods.get("__init__")
+    init_calls_mut = init is not None and any(
+        isinstance(n, ast.Call) and isinstance(n.func, ast.Attribute) and n.func.attr == mutator for n in ast.walk(init))
+    yield ("the constructor goes through %s()" % mutator, init_calls_mut, None)
+    for f in sorted(reads):
+        ok = f in written or f in constant_fields
+        yield ((cls, f, "read by " + ", ".join(sorted(reads[f]))[:80], "assigned by %s() on every path" % mutator), ok,
+               None if ok else "%s.%s() does not assign self.%s on every path" % (cls, mutator, f))
